@@ -37,3 +37,13 @@ def run_rules(run, only=None):
         except Exception as e:  # a checker bug must never look like a violation
             tb = traceback.format_exc().strip().splitlines()
             run.undecide(rid, '-', 'ANALYSIS-ERROR %s: %s | %s' % (type(e).__name__, e, ' / '.join(tb[-6:])))
+    if only and 'R-X' not in only:
+        return
+    from . import xcut
+    run.rule('R-X', 'cross-cutting definite-fault patterns in every function the rules above examined: late-bound closure over a loop variable, '
+                    'impossible arity on a str-literal method, strip() with a multi-character literal, identity comparison with a literal')
+    try:
+        xcut.check(run)
+    except Exception as e:
+        tb = traceback.format_exc().strip().splitlines()
+        run.undecide('R-X', '-', 'ANALYSIS-ERROR %s: %s | %s' % (type(e).__name__, e, ' / '.join(tb[-6:])))
